@@ -11,6 +11,7 @@ import (
 	"testing"
 	"time"
 
+	redispb "github.com/samaritan-proxy/samaritan/pb/config/protocol/redis"
 	"pgregory.net/rapid"
 
 	"verif/harness/ref"
@@ -38,6 +39,7 @@ type mop struct {
 type migCase struct {
 	Masters  int   `json:"masters"`
 	Replicas int   `json:"replicas"`
+	Compress bool  `json:"compress"` // transparent compression enabled (threshold 64): resent writes pass the filter chain again
 	Ops      []mop `json:"ops"`
 }
 
@@ -73,7 +75,11 @@ func checkMig(c migCase) (inf migInfo, v *verdict) {
 	defer w.Close()
 	w.ListFailed = true
 	w.AssignEven(w.Masters())
-	px, err := sim.StartProxy(sim.ProxyOpts{Seeds: w.AllAddrs(), ConnectTimeout: 100 * time.Millisecond})
+	opts := sim.ProxyOpts{Seeds: w.AllAddrs(), ConnectTimeout: 100 * time.Millisecond}
+	if c.Compress {
+		opts.Compression = &redispb.Compression{Enable: true, Algorithm: redispb.Compression_SNAPPY, Threshold: 64}
+	}
+	px, err := sim.StartProxy(opts)
 	if err != nil {
 		return inf, &verdict{"proxy-start", err.Error()}
 	}
@@ -240,7 +246,9 @@ func checkMig(c migCase) (inf migInfo, v *verdict) {
 		if strings.HasPrefix(k, "bg:") {
 			continue
 		}
-		if d, ok := data[k]; !ok || d != o.Dump() {
+		// with compression the nodes hold the compressed form: the values are judged through the final reads,
+		// here only the presence of every key on exactly one node
+		if d, ok := data[k]; !ok || (!c.Compress && d != o.Dump()) {
 			return inf, &verdict{"final-data-differs", fmt.Sprintf("key %q: cluster holds %q, a single server would hold %q (lost or duplicated execution)", k, clipS(d), clipS(o.Dump()))}
 		}
 	}
@@ -263,6 +271,39 @@ func clipS(s string) string {
 }
 
 var uniq int
+
+func genCmdC(t *rapid.T, seq *int, compress bool) [][]byte {
+	if !compress {
+		return genCmd(t, seq)
+	}
+	b := func(s string) []byte { return []byte(s) }
+	key := func() []byte {
+		return b(tags[rapid.IntRange(0, len(tags)-1).Draw(t, "tag")] + "k" + strconv.Itoa(rapid.IntRange(0, 4).Draw(t, "kn")))
+	}
+	*seq++
+	u := "u" + strconv.Itoa(*seq) + ";"
+	big := func() []byte { return []byte(u + strings.Repeat("abcdefgh", rapid.IntRange(10, 600).Draw(t, "rep"))) }
+	switch rapid.IntRange(0, 9).Draw(t, "ccmd") {
+	case 0, 1:
+		return [][]byte{b("SET"), key(), big()}
+	case 2:
+		return [][]byte{b("HMSET"), b("h" + string(key())), b("f1"), b(u), b("f2"), big()}
+	case 3:
+		return [][]byte{b("HSET"), b("h" + string(key())), b("f" + strconv.Itoa(*seq%3)), big()}
+	case 4:
+		return [][]byte{b("HGETALL"), b("h" + string(key()))}
+	case 5:
+		return [][]byte{b("HGET"), b("h" + string(key())), b("f2")}
+	case 6:
+		return [][]byte{b("MSET"), key(), big(), key(), b(u)}
+	case 7:
+		return [][]byte{b("MGET"), key(), key()}
+	case 8:
+		return [][]byte{b("GETSET"), key(), big()}
+	default:
+		return [][]byte{b("GET"), key()}
+	}
+}
 
 func genCmd(t *rapid.T, seq *int) [][]byte {
 	b := func(s string) []byte { return []byte(s) }
@@ -298,7 +339,7 @@ func genCmd(t *rapid.T, seq *int) [][]byte {
 }
 
 func genMig(t *rapid.T) migCase {
-	c := migCase{Masters: rapid.IntRange(2, 4).Draw(t, "masters"), Replicas: rapid.IntRange(0, 1).Draw(t, "replicas")}
+	c := migCase{Masters: rapid.IntRange(2, 4).Draw(t, "masters"), Replicas: rapid.IntRange(0, 1).Draw(t, "replicas"), Compress: rapid.IntRange(0, 3).Draw(t, "compress") == 0}
 	seq := 0
 	n := rapid.IntRange(3, 40).Draw(t, "n")
 	// make sure data exists before migrations start
@@ -308,7 +349,7 @@ func genMig(t *rapid.T) migCase {
 	for i := 0; i < n; i++ {
 		switch x := rapid.IntRange(0, 19).Draw(t, "op"); {
 		case x <= 7:
-			c.Ops = append(c.Ops, mop{Op: "cmd", Cmd: genCmd(t, &seq)})
+			c.Ops = append(c.Ops, mop{Op: "cmd", Cmd: genCmdC(t, &seq, c.Compress)})
 		case x <= 10:
 			o := mop{Op: "burst", Bg: rapid.SampledFrom([]int{0, 20, 100}).Draw(t, "bg")}
 			// every key is touched at most once per pipelined burst: a redirected command can be overtaken by a
@@ -317,7 +358,7 @@ func genMig(t *rapid.T) migCase {
 			// by construction lets the search continue behind it.
 			used := map[string]bool{}
 			for k, m := 0, rapid.IntRange(2, 25).Draw(t, "bn"); k < m; k++ {
-				cmd := genCmd(t, &seq)
+				cmd := genCmdC(t, &seq, c.Compress)
 				clash := false
 				for _, a := range cmd[1:] {
 					if used[string(a)] {
@@ -353,6 +394,13 @@ func genMig(t *rapid.T) migCase {
 	for _, tg := range tags {
 		for k := 0; k < 5; k++ {
 			fin = append(fin, [][]byte{[]byte("GET"), []byte(tg + "k" + strconv.Itoa(k))})
+		}
+	}
+	if c.Compress {
+		for _, tg := range tags {
+			for k := 0; k < 5; k++ {
+				fin = append(fin, [][]byte{[]byte("HGETALL"), []byte("h" + tg + "k" + strconv.Itoa(k))})
+			}
 		}
 	}
 	c.Ops = append(c.Ops, mop{Op: "burst", Burst: fin})
